@@ -76,7 +76,8 @@ class Authenticator:
         since = time() - auth_event.created_at
         if since >= 600:
             raise AuthenticationError("invalid: Too old")
-        elif since <= -600:
+        elif not since > -600:
+            # not "since <= -600": a NaN timestamp fails every comparison
             raise AuthenticationError("invalid: Too new")
         found_relay = found_challenge = False
         for tag in auth_event.tags:
